@@ -455,7 +455,7 @@ theorem hashesOf_some (rows : DB) (hs : List Bytes) (h : valHashes rows = some h
 other conditions -/
 theorem search_clean_compute {hist : List TxResult} (hc : CleanHist H hist) {q : Query}
     (hq : CleanQuery hist q) :
-    ∃ L, search (addBatch H [] hist) q = .hashes L ∧
+    ∃ L, search (addBatch H [] hist) q = .hashes L ∧ L.Nodup ∧
       ∀ x, x ∈ L ↔
         (∀ W ∈ lookForRanges q, ∃ r ∈ hist, H r.tx = x ∧ ∃ m, (W.key, dec m) ∈ attrsAll r ∧ inR W m = true) ∧
         (∀ c ∈ otherConds q, ∃ r ∈ hist, H r.tx = x ∧ condHoldsG c r = true ∧
@@ -507,7 +507,7 @@ theorem search_clean_compute {hist : List TxResult} (hc : CleanHist H hist) {q :
       rw [h'] at this
       rename_i hmem; rw [h'] at hmem; cases hmem
   obtain ⟨L, eL, mL⟩ := interFold_none _ hne
-  refine ⟨L, ?_, ?_⟩
+  refine ⟨L, ?_, interFold_none_nodup _ L eL, ?_⟩
   · simp only [search, h1, h2, Bool.not_true, Bool.false_eq_true, if_false]
     show (match (otherConds q).foldl (fun st c => scanStep st (condRows db c h))
         ((lookForRanges q).foldl (fun st r => scanStep st (some (rangeRows db r))) (.ok none)) with
